@@ -7,7 +7,7 @@ open Pharmpy Pharmpy.C14
     request  (op cfg rows)
       cfg  = (hasDose hasEvid hasSs hasMdv hasAddl)            each 0/1
       rows = ((id time amt evid ss addl ii mdv) ...)           rationals as n or n/d
-    ops: doseid doseidloop walk regular tad expand mdv evid obs doses nobs nobsper
+    ops: doseid doseidloop walk regular notie tad expand mdv evid obs doses nobs nobsper
 -/
 
 def bad : Sexp := .list [.atom "err", .atom "bad-op"]
@@ -56,6 +56,7 @@ def handle (req : Sexp) : Sexp :=
       | "doseidloop" => if cfg.hasDose then ints (getDoseidLoop cfg ds) else .list [.atom "err", .atom "DatasetError"]
       | "walk" => ints (walkDoseid cfg ds)
       | "regular" => Sexp.ofBool (decide (Regular cfg ds))
+      | "notie" => Sexp.ofBool (decide (NoTie ds))
       | "tad" => if cfg.hasDose then
           .list ((addTad cfg ds).map (fun p => .list [Sexp.ofNat p.1.lab, ratS p.2]))
           else .list [.atom "err", .atom "DatasetError"]
